@@ -226,9 +226,17 @@ pub fn run_property<P: Prop>(p: &P, tier: Tier) -> i32 {
                         });
                         let stats = RefCell::new(Stats::default());
                         let failed = RefCell::new(false);
+                        // the case being executed is kept on disk so that a crash of the whole process (abort, SIGSEGV:
+                        // memory unsafety, non-unwinding panic) can be attributed and replayed by `check`
+                        let inflight = std::env::var("VERIF_INFLIGHT").ok().map(|d| PathBuf::from(d).join(format!("{}-{}.json", p.id(), w)));
                         let res = runner.run(&strategy, |case| {
                             if stop.load(Ordering::Relaxed) && !*failed.borrow() {
                                 return Ok(());
+                            }
+                            if let Some(f) = &inflight {
+                                if let Ok(j) = serde_json::to_vec(&case) {
+                                    let _ = std::fs::write(f, j);
+                                }
                             }
                             let mut obs = Obs::default();
                             let r = match catch(|| p.run(&case, &mut obs)) {
@@ -279,6 +287,9 @@ pub fn run_property<P: Prop>(p: &P, tier: Tier) -> i32 {
                             }
                         });
                         total.lock().unwrap().merge(stats.into_inner());
+                        if let Some(f) = &inflight {
+                            let _ = std::fs::remove_file(f);
+                        }
                         match res {
                             Ok(()) => {}
                             Err(TestError::Fail(reason, case)) => {
